@@ -600,3 +600,176 @@ func checkC06(cc Case, r *simrt.Result) *Outcome {
 func init() {
 	Props["C06"] = &Scenario{Gen: genC06, Check: checkC06}
 }
+
+// ---------- C10: boundary events ----------
+
+func genC10(d *Draw) Case {
+	defs := &Definitions{}
+	g := &Graph{ID: "P1", Executable: true}
+	defs.Procs = []*Graph{g}
+	defs.Signals = []string{"sB1", "sB2", "sX"}
+	g.addNode(&Node{ID: "Start", Kind: "start"})
+	cur := "Start"
+	pre := d.N(3) == 2
+	if pre {
+		g.addNode(&Node{ID: "T0", Kind: "task", Results: []string{"r_T0"}})
+		g.connect(defs, cur, "T0", nil, -1)
+		cur = "T0"
+	}
+	two := d.N(4) == 3 // two tokens wait inside the host at the same time
+	if two {
+		g.addNode(&Node{ID: "F", Kind: "and"})
+		g.connect(defs, cur, "F", nil, -1)
+		cur = "F"
+	}
+	g.addNode(&Node{ID: "H", Kind: "task", Results: []string{"r_H"}})
+	g.connect(defs, cur, "H", nil, -1)
+	if two {
+		g.connect(defs, "F", "H", nil, -1)
+	}
+	g.addNode(&Node{ID: "N", Kind: "task", Results: []string{"r_N"}})
+	g.connect(defs, "H", "N", nil, -1)
+	g.addNode(&Node{ID: "EN", Kind: "end"})
+	g.connect(defs, "N", "EN", nil, -1)
+	nb := 1 + d.N(2)
+	tags := map[string]bool{}
+	for i := 1; i <= nb; i++ {
+		b := g.addNode(&Node{ID: fmt.Sprintf("B%d", i), Kind: "boundary", Attached: "H", Interrupting: d.N(3) == 2,
+			Events: []EventDef{{Kind: "signal", Ref: fmt.Sprintf("sB%d", i)}}})
+		x := g.addNode(&Node{ID: fmt.Sprintf("X%d", i), Kind: "task", Results: []string{fmt.Sprintf("r_X%d", i)}})
+		e := g.addNode(&Node{ID: fmt.Sprintf("EX%d", i), Kind: "end"})
+		g.connect(defs, b.ID, x.ID, nil, -1)
+		g.connect(defs, x.ID, e.ID, nil, -1)
+		if b.Interrupting {
+			tags["interrupting"] = true
+		}
+	}
+	g.index()
+	c := &ProcCase{Buf: d.N(17), Hold: 2}
+	// plan: events interleaved with the host's answer; H is answered only when the coordinator picks it
+	ne := d.N(5)
+	pool := []string{"sB1", "sB2", "sX"}
+	fired := map[string]int{}
+	var evd []string
+	for i := 0; i < ne; i++ {
+		ref := pool[d.N(nb+1)]
+		if ref == "sB2" && nb < 2 {
+			ref = "sX"
+		}
+		ep := EvPlan{Kind: "signal", Ref: ref}
+		if d.N(4) == 3 {
+			ep.ThenAnswer = true // the very next client action is the host's answer, without waiting for quiescence
+		}
+		c.Events = append(c.Events, ep)
+		evd = append(evd, ref)
+		fired[ref]++
+	}
+	if d.N(3) != 0 {
+		// the stratum free of known findings: every boundary event gets its event (exactly once)
+		for i := 1; i <= nb; i++ {
+			ref := fmt.Sprintf("sB%d", i)
+			if fired[ref] == 0 {
+				ep := EvPlan{Kind: "signal", Ref: ref, ThenAnswer: d.N(3) == 2}
+				c.Events = append(c.Events, ep)
+				evd = append(evd, ref)
+				fired[ref]++
+			}
+		}
+	}
+	for i := 1; i <= nb; i++ {
+		n := fired[fmt.Sprintf("sB%d", i)]
+		if n == 0 {
+			tags["unfired-boundary"] = true
+		}
+		if n > 1 {
+			tags["repeated-boundary-event"] = true
+		}
+	}
+	if pre || two {
+		// events may arrive before the host is active / with two tokens inside: exactness needs care
+	}
+	var tl []string
+	for t := range tags {
+		tl = append(tl, t)
+	}
+	c.Prog = &Program{Defs: defs, Vars: map[string]any{}, Tags: tl, Desc: fmt.Sprintf("host H with %d boundary event(s), pre-task=%v two-tokens=%v, events %v", nb, pre, two, evd)}
+	c.Picks = drawPicks(d, 32)
+	c.Meta = map[string]int{"two": b2i(two), "nb": nb}
+	return c
+}
+
+func checkC10(cc Case, r *simrt.Result) *Outcome {
+	c := cc.(*ProcCase)
+	o := &Outcome{}
+	var vl vlist
+	genericRunViolations("C10", r, &vl)
+	for _, p := range r.Panics {
+		vl.add("C10/panic", "%s", p)
+	}
+	eventCallsReturned("C10", c, &vl)
+	tg := CheckTokenGame("C10", c.Prog, c.env.L.E)
+	vl.v = append(vl.v, tg.Viol...)
+	o.Viol = vl.v
+	o.Tags = append([]string{}, c.Prog.Tags...)
+	// dynamic tags for the known findings: what actually happened in this run
+	hostAnswered := false
+	intrFired := false
+	hReq, hAns := 0, 0
+	partial := false
+	for _, ev := range c.env.L.E {
+		switch {
+		case ev.Kind == "t:task" && ev.A == "H":
+			hReq++
+		case ev.Kind == "ans" && ev.A == "H":
+			hostAnswered = true
+			hAns++
+		case ev.Kind == "ev" && strings.HasPrefix(ev.B, "sB"):
+			if hAns >= 1 && hReq > hAns {
+				partial = true
+			}
+		}
+	}
+	g := c.Prog.Defs.Procs[0]
+	for id, n := range tg.M.Fired {
+		if b := g.Node(id); b != nil && b.Kind == "boundary" && b.Interrupting && n > 0 {
+			intrFired = true
+		}
+	}
+	if intrFired {
+		o.Tags = append(o.Tags, "interrupting-fired")
+	}
+	o.Tags = o.Tags[:0]
+	if intrFired {
+		o.Tags = append(o.Tags, "interrupting-fired")
+	}
+	if partial {
+		o.Tags = append(o.Tags, "event-after-one-of-two-tokens-left")
+	}
+	for _, b := range g.Nodes {
+		if b.Kind != "boundary" {
+			continue
+		}
+		if tg.M.Fired[b.ID] == 0 {
+			o.Tags = append(o.Tags, "unfired-boundary")
+		}
+		if !b.Interrupting && tg.M.Fired[b.ID] > 1 {
+			o.Tags = append(o.Tags, "boundary-fired-twice")
+		}
+	}
+	_ = hostAnswered
+	o.Nontrivial = r.Switches > 0 && len(c.Events) > 0
+	fired := 0
+	for _, n := range tg.M.Fired {
+		fired += n
+	}
+	probe(o, "boundary-fired", fired > 0)
+	probe(o, "interrupting-fired", intrFired)
+	probe(o, "two-tokens-in-host", c.Meta["two"] == 1)
+	probe(o, "event-dropped-host-not-active", tg.M.Dropped > 0)
+	o.Sample = map[string]any{"program": c.Prog.Desc, "requests": tg.Requests, "tags": o.Tags}
+	return o
+}
+
+func init() {
+	Props["C10"] = &Scenario{Gen: genC10, Check: checkC10}
+}
